@@ -1,0 +1,10 @@
+// SPDX-FileCopyrightText: 2023 The Pion community <https://pion.ly>
+// SPDX-License-Identifier: MIT
+
+//go:build !verif
+
+package rtp
+
+// verifYield is a verification hook point; it does nothing (and is inlined
+// away) unless the package is built with the verif build tag.
+func verifYield() {}
